@@ -94,9 +94,9 @@ def gen_grammar(rng):
     terms = rng.sample(TERMS, nterm)
     byname = {t[0]: t for t in TERMS}
     for t in list(terms):  # a terminal and its numbered namesake together
-        if t[0] in RELATED and rng.random() < 0.6:
-            o = byname[rng.choice(RELATED[t[0]])]
-            if o not in terms:
+        for rel_name in RELATED.get(t[0], []):
+            o = byname[rel_name]
+            if rng.random() < 0.4 and o not in terms and len(terms) < 7:
                 terms.append(o)
     names = [t[0] for t in terms]
     nrules = rng.randint(1, 3)
